@@ -507,6 +507,8 @@ class Ev:
         self.zero_shapes = []         # shapes passed to zeros(..) constructors during the last evaluation
         self.outer_locals = []        # per enclosing summarised for-loop: ids of the locals that existed before it
         self.guards, self.loops = [], []   # path condition / enclosing loops while executing loop bodies for effect
+        self.fn_stack = []                 # (name, record) of the functions being inlined, innermost last
+        self.tail_loops = 0                # depth of `loop`s being evaluated as the tail recursion of the enclosing function
         self.tymaps = []                   # per inlined generic function: {type parameter name: concrete type} from the call's generic arguments
         self._gargs = None                 # generic arguments of the call being inlined (set by the call site, consumed by apply_fn)
         self.path = []                     # conditions already decided on the current forked path (for pruning re-tests)
@@ -536,6 +538,8 @@ class Ev:
         else:
             self.guards, self.loops, self.path = [], [], list(self.path) if depth else []
         self.tymaps.append(tymap)
+        self.fn_stack.append((name, r))
+        saved_tl, self.tail_loops = self.tail_loops, 0
         try:
             v = strip_early(self.eval(r["body"], env, depth + 1))
             return self.collapse(v) if collapse else v
@@ -543,6 +547,8 @@ class Ev:
             return ret.value
         finally:
             self.tymaps.pop()
+            self.fn_stack.pop()
+            self.tail_loops = saved_tl
             self.guards, self.loops, self.path = saved
 
     def concrete_ty(self, t):
@@ -907,6 +913,74 @@ class Ev:
             return v
         return Sym(how, vkey(v))
 
+    # ---- a `loop` in tail position is the function calling itself with the updated state
+    def tail_loop(self, lp, env, depth):
+        """`fn f(p) { PROLOGUE; loop { BODY } }`: one evaluation of BODY whose exits are `return v` / `break v`, and whose end (or `continue`) is the call
+        `f(p')` with p' such that PROLOGUE(p') gives the state reached — judged only where the rule summarises recursive calls of f by a hook, so the loop
+        form and the tail-recursive form leave the same paths and leaves."""
+        if not self.fn_stack:
+            raise Unsupported("loop form not modelled at line %s" % lp.get("ln"))
+        name, rec = self.fn_stack[-1]
+        top = rec["body"]
+        while top.get("k") == "block" and not top["stmts"] and "e" in top and top["e"].get("k") == "block":
+            top = top["e"]
+        owns = top.get("k") == "block" and ((top.get("e") is lp) or (top["stmts"] and top["stmts"][-1].get("e") is lp and "e" not in top))
+        hook = next((h for suffix, h in self.hooks.items() if not suffix.startswith("@") and name.endswith(suffix)), None)
+        if not owns or hook is None:
+            raise Unsupported("loop form not modelled at line %s (not the tail of a function whose recursive calls are summarised)" % lp.get("ln"))
+        body = lp["b"]
+        stmts = list(body["stmts"]) + ([{"k": "semi", "e": body["e"]}] if "e" in body else [])
+        blk = {"k": "block", "stmts": stmts, "e": {"k": "selfcall", "ln": lp.get("ln"), "ty": rec.get("ret"), "prologue": [s_ for s_ in top["stmts"] if s_.get("e") is not lp]},
+               "ln": body.get("ln"), "ty": rec.get("ret")}
+        self.tail_loops += 1
+        try:
+            return self._run_block(blk, 0, env, depth)
+        finally:
+            self.tail_loops -= 1
+
+    def ev_break(self, e, env, depth):
+        if self.tail_loops and not self.loops and "e" in e:
+            raise Return(self.eval(e["e"], env, depth))         # `break v` out of the tail loop is `return v`
+        raise Unsupported("break at line %s" % e.get("ln"))
+
+    def ev_selfcall(self, e, env, depth):
+        name, rec = self.fn_stack[-1]
+        hook = next(h for suffix, h in self.hooks.items() if not suffix.startswith("@") and name.endswith(suffix))
+        pids = []
+        for p_ in rec["params"]:
+            if p_.get("k") != "bind" or "sub" in p_:
+                raise Unsupported("loop form: parameter pattern of %s" % name)
+            pids.append(p_["id"])
+        args = {pid: env.get(pid) for pid in pids}
+        for s_ in e["prologue"]:
+            if s_["k"] != "let" or "init" not in s_ or s_["pat"].get("k") != "bind":
+                raise Unsupported("loop form: prologue statement at line %s is not a simple binding" % s_.get("ln"))
+            sid, init = s_["pat"]["id"], s_["init"]
+            used = sorted({x["id"] for x in hir.walk(init) if x.get("k") == "path" and x.get("res") == "local" and x.get("id") in pids})
+            locs = {x["id"] for x in hir.walk(init) if x.get("k") == "path" and x.get("res") == "local"}
+            if locs - set(pids):
+                raise Unsupported("loop form: prologue binding at line %s depends on another local" % s_.get("ln"))
+            cur = env.get(sid)
+            if not used:
+                continue
+            if len(used) != 1:
+                raise Unsupported("loop form: prologue binding at line %s depends on several parameters" % s_.get("ln"))
+            # the parameter value that makes the prologue produce the state reached: the state itself, or Some(state) for `p.unwrap_or(..)`
+            picked = None
+            for cand in (cur, Sym("ctor", "Some", cur)):
+                env2 = dict(args)
+                env2[used[0]] = cand
+                try:
+                    if vkey(self.collapse(self.eval(init, env2, depth))) == vkey(cur):
+                        picked = cand
+                        break
+                except Unsupported:
+                    continue
+            if picked is None:
+                raise Unsupported("loop form: no parameter value reproduces the loop state bound at line %s" % s_.get("ln"))
+            args[used[0]] = picked
+        return hook(self, [args[pid] for pid in pids], e)
+
     def ev_tyscope(self, e, env, depth):
         self.tymaps.append(e["tymap"])
         try:
@@ -1037,6 +1111,8 @@ class Ev:
                     return out[0][1] if len(out) == 1 else self.collapse(Alt(out))
                 elif x.get("k") in ("if", "match") and x.get("ty") in ("()", None) and self.loops:
                     self.exec_stmt(x, env, depth)          # inside a summarised loop (a helper called from a loop body): effects are recorded under the branch's guard
+                elif x.get("k") == "loop" and i == len(stmts) - 1 and "e" not in e and not self.loops:
+                    return self.tail_loop(x, env, depth)
                 elif x.get("k") in ("loop",):
                     raise Unsupported("statement-level control flow (%s) at line %s" % (x["k"], x.get("ln")))
                 elif x.get("k") == "mcall" and x["m"] == "clone_from" and x["recv"].get("k") == "path" and x["recv"].get("res") == "local":
@@ -1065,6 +1141,8 @@ class Ev:
                                 del self.path[len(self.path) - len(gs):]
                         return Alt(out)
         if "e" in e:
+            if e["e"].get("k") == "loop" and not self.loops:
+                return self.tail_loop(e["e"], env, depth)
             if e["e"].get("k") in ("for", "while") or (e["e"].get("k") in ("assign", "assignop") and strip_refs(e["e"]["l"]).get("k") == "index") or \
                     (e["e"].get("k") in ("if", "match") and e["e"].get("ty") == "()" and self.loops):
                 self.exec_stmt(e["e"], env, depth)         # a unit-valued loop / indexed write in tail position is a statement
@@ -1467,6 +1545,8 @@ class Ev:
                 # a `return` that only some iterations / some branches reach: in loop mode the body is summarised once, so this would be read as unconditional
                 raise Unsupported("conditional return inside a loop body at line %s" % x.get("ln"))
             raise Return(self.eval(x["e"], env, depth) if "e" in x else Sym("unit"))
+        if k == "break" and self.tail_loops and not self.loops and "e" in x:
+            raise Return(self.eval(x["e"], env, depth))          # `break v` out of the tail loop of the function is `return v`
         if k in ("break", "continue"):
             raise Unsupported("%s inside a summarised loop body at line %s" % (k, x.get("ln")))
         v = self.eval(x, env, depth)
